@@ -8,6 +8,7 @@ pub mod lay;
 pub mod probe;
 pub mod props;
 pub mod run;
+pub mod scale;
 pub mod shapes;
 pub mod driver;
 pub mod ops;
